@@ -71,7 +71,7 @@ REQUIRED_CLASSES = (
     ["curve=" + n for n in NAMES]
     + ["key.lead0-X", "key.lead0-Y", "key.lead0-d", "key.random", "params=named", "params=explicit", "priv=ssleay", "priv=pkcs8",
        "enc=raw", "enc=uncompressed", "enc=compressed", "enc=hybrid", "container=DER", "container=PEM", "src=library", "src=openssl",
-       "p256.header-identical", "p256.raw-roundtrip", "p256.lead0-X", "p256.lead0-Y", "trunc.prefix", "trunc.extension", "trunc.rejected",
+       "pointform=neg.scaled", "pointform=sum", "p256.header-identical", "p256.raw-roundtrip", "p256.lead0-X", "p256.lead0-Y", "trunc.prefix", "trunc.extension", "trunc.rejected",
        "mut.past-outer-seq", "mut.accepted", "gen.structural", "tiny.p=odd-square", "tiny.accepted", "fuzz.corpus=seeded"]
     + (["cli.reads-library-pem", "cli.library-reads-openssl-pem"] if os.path.exists("/usr/bin/openssl") else [])
     + ["mut.kind=" + k for k in MUT_KINDS]
@@ -440,6 +440,75 @@ def enum_formats(tier, shard, nshards, rng):
                 yield dict(curve=name, d=d, kind=KIND_CLASS.get(kind, kind))
 
 
+# ------------------------------------------------------------------------------------------------ part: pointforms
+# The point byte encodings (AbstractPoint.to_bytes / from_bytes) applied to points in every form the library itself produces:
+# results of *, +, unary minus, scale(), to_affine(), from_affine().  The key's point is the same in all forms; its encoding is
+# defined by its canonical affine coordinates (computed by OpenSSL).
+
+POINT_FORMS = ["mul", "scaled", "neg", "neg.scaled", "sum", "sum.scaled", "affine", "affine.neg", "neg.scaled.affine", "from_affine.neg"]
+
+
+def build_form(cx, d, form):
+    from register_crypto_plugin.ecdsa.ellipticcurve import PointJacobi
+
+    G, n = cx.c.generator, cx.n
+    if form == "mul":
+        return G * d
+    if form == "scaled":
+        return (G * d).scale()
+    if form == "neg":
+        return -(G * (n - d))
+    if form == "neg.scaled":
+        return -((G * (n - d)).scale())
+    if form in ("sum", "sum.scaled"):
+        a = (d + 1) // 2 if d > 1 else 2
+        b = (d - a) % n  # never 0: k*G for k = 0 is the INFINITY object, which has no scale()
+        return (G * a) + (G * b) if form == "sum" else (G * a).scale() + (G * b).scale()
+    if form == "affine":
+        return (G * d).to_affine()
+    if form == "affine.neg":
+        return -((G * (n - d)).to_affine())
+    if form == "neg.scaled.affine":
+        return (-((G * (n - d)).scale())).to_affine()
+    if form == "from_affine.neg":
+        return -PointJacobi.from_affine((G * (n - d)).to_affine())
+    raise ValueError(form)
+
+
+def enum_pointforms(tier, shard, nshards, rng):
+    i = 0
+    for name in NAMES:
+        for kind, d in key_list(name, tier):
+            for form in POINT_FORMS:
+                i += 1
+                if i % nshards == shard:
+                    yield dict(curve=name, d=d, kind=KIND_CLASS.get(kind, kind), form=form)
+
+
+def check_pointforms(case, rec):
+    from register_crypto_plugin.ecdsa.ellipticcurve import PointJacobi
+
+    name, d, form = case["curve"], case["d"], case["form"]
+    cx = Cx.get(name)
+    rec.cls("curve=" + name)
+    rec.cls("pointform=" + form)
+    pub = cx.g.mul(d)
+    key_classes(cx, d, pub, rec)
+    rec.nt()
+    L = cx.Lp
+    pt = call("%s: building the point %d*G in form %s" % (name, d, form), build_form, cx, d, form)
+    xy = pub[0].to_bytes(L, "big") + pub[1].to_bytes(L, "big")
+    for enc in ENC4:
+        want = {"raw": xy, "uncompressed": b"\x04" + xy, "hybrid": bytes([6 + (pub[1] & 1)]) + xy, "compressed": bytes([2 + (pub[1] & 1)]) + xy[:L]}[enc]
+        got = bytes(call("%s: to_bytes(%s) of the point %#x*G in form %s" % (name, enc, d, form), pt.to_bytes, enc))
+        if got != want:
+            raise Violation("%s: to_bytes(%s) of the point %#x*G in form %s is %s; the point is (%#x, %#x), whose %s encoding is %s" % (
+                name, enc, d, form, got.hex(), pub[0], pub[1], enc, want.hex()))
+        back = call("%s: PointJacobi.from_bytes(%s)" % (name, got.hex()), PointJacobi.from_bytes, cx.c.curve, got)
+        if (int(back.x()), int(back.y())) != pub:
+            raise Violation("%s: %s encoding of the point in form %s decodes to (%#x, %#x), expected (%#x, %#x)" % (name, enc, form, int(back.x()), int(back.y()), pub[0], pub[1]))
+
+
 # ------------------------------------------------------------------------------------------------ part: bec2hdr (P-256 header)
 
 
@@ -670,7 +739,21 @@ def try_decode(fn, data):
 
 # decoders by name; `cx` supplies the curve for the string decoders
 def decoder(name, cx):
-    c = cx.c if cx is not None and "from_string" in name else None
+    c = cx.c if cx is not None and ("from_string" in name or name.startswith("ecdh.")) else None
+
+    def ecdh_bytes(enc):
+        # the key-agreement front end of the same point-string decoder, told which single encoding to expect
+        def f(b):
+            from register_crypto_plugin.ecdsa.ecdh import ECDH
+
+            e = ECDH(curve=c)
+            e.load_received_public_key_bytes(b, valid_encodings=[enc])
+            return e.public_key
+
+        return f
+
+    if name.startswith("ecdh.bytes:strict-"):
+        return ecdh_bytes(name.split("strict-")[1])
     return {
         "vk.from_der": LK.VerifyingKey.from_der,
         "sk.from_der": LK.SigningKey.from_der,
@@ -709,7 +792,7 @@ def seed_bytes(t):
         return bytes(call("Curve encoding", f, "explicit" if explicit else "named_curve", enc))
     if base == "plug.pub.from_raw":
         return pub[0].to_bytes(32, "big") + pub[1].to_bytes(32, "big")
-    if base == "vk.from_string":
+    if base in ("vk.from_string", "ecdh.bytes"):
         if src == "openssl" and enc != "raw":
             return cx.g.point2oct(pub, FORM[enc])
         sk, vk = lib_keys(cx, d)
@@ -743,6 +826,7 @@ def targets_for(name, d, tier, what):
         add(dec="vk.from_string", enc=enc)
         if what == "trunc":
             add(dec="vk.from_string:strict-" + enc, enc=enc)
+            add(dec="ecdh.bytes:strict-" + enc, enc=enc)
     add(dec="sk.from_string")
     for explicit in (False, True):
         for enc in ENC3 if explicit else ENC3[:1]:
@@ -1336,6 +1420,7 @@ def bulk_fuzz(tier, shard, nshards, rec, rng):
 def parts(tier):
     return [
         Part("formats", check=check_formats, enum=enum_formats, quick=(16, 0), thorough=(16, 0)),
+        Part("pointforms", check=check_pointforms, enum=enum_pointforms, quick=(16, 0), thorough=(16, 0)),
         Part("bec2hdr_keys", check=check_p256, enum=enum_p256, quick=(2, 0), thorough=(2, 0)),
         Part("bec2hdr", check=check_p256, strategy=strat_p256, quick=(4, 60), thorough=(16, 1500)),
     ] + ([Part("cli", check=check_cli, enum=enum_cli, quick=(8, 0), thorough=(16, 0))] if os.path.exists(OPENSSL_CLI) else []) + [
